@@ -32,6 +32,9 @@ type Ctx struct {
 	// ModPath is the import-path prefix of the module under analysis.
 	ModPath  string
 	allFuncs map[*ssa.Function]bool
+	// who-writes cache for package-level variables (loops.go)
+	constGlobals   map[*ssa.Global]bool
+	writtenGlobals map[*ssa.Global]bool
 }
 
 // Drain returns and clears the findings collected so far.
